@@ -7,7 +7,11 @@ from .common import Check, fmt_ints, fmt_matrix, kv
 from . import c03_util as U
 
 THEOREMS = [
-    "Pack.geo_isCeil", "Pack.geo_le_lowerBound", "Pack.geo_le_bins",
+    "Pack.geo_isCeil", "Pack.geo_le_lowerBound", "Pack.geo_le_bins", "Pack.bins_pos", "Pack.damv_defined",
+    "Pack.cutLoop_fuel_enough", "Pack.cutsq_sorted", "Pack.cutsq_tiles", "Pack.bin_facts",
+    "Pack.greedy_matching_dominates", "Pack.lbQ_le_bins", "Pack.damv_le_bins", "Pack.lowerBound_le_bins",
+    "Pack.lowerBoundLeBins", "Pack.fewer_bins_infeasible", "Pack.lowerBound_pos", "Pack.lowerBound_le_nItems",
+    "Pack.minBins_eq", "Pack.totalArea_pos", "Pack.bounds_in_range",
 ]
 
 
@@ -331,15 +335,14 @@ def streams(ck: Check) -> None:
     for stream, W, H, items in gen_malformed(ck):
         add_lb(stream, W, H, items, False)
 
-    # ---- (6) function level: __lb_q on arbitrary (also unsorted) lists, __cutsq on single rows
+    # ---- (6) function level: __lb_q on arbitrary non-increasing lists, __cutsq on single rows
     for i in range(1500 if ck.quick else 30000):
         W, H = rng.randint(1, 30), rng.randint(1, 30)
         if i % 2:
             W, H = max(W, H), min(W, H)
         q = rng.randint(-1, H // 2 + 2)
         ls = [rng.randint(0, max(W, H) + 1) for _ in range(rng.randint(0, 12))]
-        if i % 3:
-            ls.sort(reverse=True)
+        ls.sort(reverse=True)   # the contract of __lb_q: a non-increasing list
         try:
             v = f"v={impl.lbq(W, H, q, list(ls))}"
         except ZeroDivisionError:
@@ -348,7 +351,7 @@ def streams(ck: Check) -> None:
         ops.append(line)
         ctx.append(("lbq", "lbq", v, None))
         ck.case(line)
-        ck.count("lbq_sorted" if i % 3 else "lbq_unsorted")
+        ck.count("lbq")
     for i in range(300 if ck.quick else 5000):
         w, h = rng.randint(1, 60), rng.randint(1, 60)
         rep = rng.choice([-1, 0, 1, 1, 2, 3])
@@ -389,7 +392,7 @@ def check(ck: Check) -> None:
     ck.rule = ("all shipped instances + exhaustive/sampled instances with W,H<=6 and <=3 item types (exact optimum by an "
                "exhaustive packer, witness validated by Pack.Feasible) + threshold/boundary and random instances W,H<=200, "
                "<=40 items, both orientations (witness: best bottom-left decoding) + guillotine-cut perfect and thinned packings "
-               "+ bins up to 1e12 + function-level __lb_q on arbitrary lists and __cutsq on single rows; a case is one protocol "
+               "+ bins up to 1e12 + function-level __lb_q on arbitrary non-increasing lists (also W<H, q outside the range) and __cutsq on single rows; a case is one protocol "
                "line; non-trivial = constructor accepted; distinct by line hash")
     ck.assumptions += [
         "Python int/float comparison `l > W/2` is exact and W/2 is exactly representable for W < 2^53 (Valid bounds W,H <= 1e12); "
